@@ -111,3 +111,14 @@ Theorem C15_printed_labels_refuted :
   /\ map fst (spell node_label (r_root r) []) = [[47; 239; 191; 189; 239; 191; 189]; [47; 239; 191; 189; 239; 191; 189]]%N.
 Proof. exact printed_labels_refuted. Qed.
 Print Assumptions C15_printed_labels_refuted.
+
+(* ---- the printer's walk, REGENERATED from src/node/display.rs on this run (Gen/Shapes.v): the seven child lists in
+        the order of kinds, every child through the same two statements, `count` the sum of the seven lengths ---- *)
+From Coq Require Import String.
+From WF Require Import Gen.Shapes Proofs.ShapesP.
+Theorem C15_printer_walks_the_seven_lists_in_kind_order :
+  bl_eqb gen_display_loops seven_lists = true
+  /\ gen_display_for_count = 8
+  /\ bl_eqb gen_display_count_terms (map (fun f => ("node." ++ f ++ ".len()")%string) seven_lists) = true.
+Proof. exact display_shape. Qed.
+Print Assumptions C15_printer_walks_the_seven_lists_in_kind_order.
